@@ -694,6 +694,12 @@ def _ite_struct(ce, a, b):
         return _ite_struct(ce, a, a.literal(b))
     if isinstance(b, SOpaque) and b.admits_literal(a):
         return _ite_struct(ce, b.literal(a), b)
+    if getattr(a, "is_text", False) and getattr(b, "is_text", False) and a.kind == b.kind:
+        # two texts of one kind (e.g. the text component of an element read at a symbolic index out of `old ++ [new]`):
+        # the derived text whose length, elements and widths are the conditionals (pyvc.text.STextIte)
+        from .text import STextIte
+
+        return STextIte(mk_bool(ce), a, b)
     if type(a).__name__ in _SEQ_NAMES or type(b).__name__ in _SEQ_NAMES:
         # two immutable sequence values (rows of a nested list): pointwise conditional
         from .seqs import SSeq, seq_len, to_sseq
